@@ -89,7 +89,11 @@ def expect_tlv(st, ty, ln, payload):
             if eqb(g, sx) or st.canon(g) == st.canon(sx):
                 return True
             d0, dg = st.dom(b0), st.dom(g)
-            return (d0.lo >= 128 and dg.lo == dg.hi == 255) or (d0.hi <= 127 and dg.lo == dg.hi == 0)
+            from ..terms import mk_sext
+            ds = st.dom(mk_sext(st.canon(b0), 1))          # the path may know the sign through the int8 value instead
+            neg = d0.lo >= 128 or ds.hi < 0
+            pos = d0.hi <= 127 or ds.lo >= 0
+            return (neg and dg.lo == dg.hi == 255) or (pos and dg.lo == dg.hi == 0)
         ok = len(payload) == 4 and low_is(payload[3]) and all(fill_is(payload[k]) for k in range(3))
         return ok, 'RSSI = BE32 of the sign-extended int8 dBm value'
     if ty == 0x14:
